@@ -74,8 +74,23 @@ func debugRun(args []string) {
 	if u := os.Getenv("GOSMT_UNWIND"); u != "" {
 		unw, _ = strconv.Atoi(u)
 	}
-	x := sx.NewExec(prog.Prog, sx.Config{Progress: 500, Trace: os.Getenv("GOSMT_TRACE") != "", InitPkgs: []string{sx.VrfPkg, sx.ModPath + "/pkg/" + pkg},
-		StubPkgs: stubPkgs, MaxUnwind: unw})
+	initPkgs := []string{sx.VrfPkg, sx.ModPath + "/pkg/" + pkg}
+	var loopBounds map[string]int
+	for _, h := range registry {
+		if h.Pkg == pkg && h.Func == fn {
+			for _, p := range h.InitPkgs {
+				initPkgs = append(initPkgs, sx.ModPath+"/pkg/"+p)
+			}
+			initPkgs = append(initPkgs, h.InitAbs...)
+			loopBounds = h.LoopBounds
+			if unw == 0 {
+				unw = h.Unwind
+			}
+			break
+		}
+	}
+	x := sx.NewExec(prog.Prog, sx.Config{Progress: 500, Trace: os.Getenv("GOSMT_TRACE") != "", InitPkgs: initPkgs,
+		StubPkgs: stubPkgs, MaxUnwind: unw, LoopBounds: loopBounds})
 	x.InstallRedirects(prog)
 	var vals []sx.Value
 	for _, p := range params {
